@@ -206,5 +206,49 @@ def rel_gate(prog: Program) -> RuleResult:
     return r
 
 
+# which incident edges a rustworkx PyDiGraph accessor returns
+EDGE_DIRECTIONS = {"in_edges": {"in"}, "out_edges": {"out"}, "incident_edges": {"out"}, "incident_edge_index_map": {"out"}, "edges": {"in", "out"}, "edge_list": {"in", "out"},
+                   "weighted_edge_list": {"in", "out"}, "edge_index_map": {"in", "out"}}
+
+
+def sg_purge_directions(prog: Program) -> RuleResult:
+    """Node removal must forget the relations *into* and *out of* the node (both kinds of pairs contain its recycled index)."""
+    r = RuleResult("SG-PURGE-BOTH", "removing a node purges the relation pairs of incoming and outgoing edges", floor=1)
+    sg = prog.cls(SG)
+    rm = prog.method(sg.qual, "remove_node", inherited=False)
+    funcs = self_closure(prog, sg.qual, rm, False)[0]
+    purge_loops = []
+    for f in funcs:
+        for lp in [n for n in walk_local(f.node) if isinstance(n, ast.For)]:
+            if any(fl == "_relation_index" and kind == "del" for fl, kind, _, node, _ in effects(prog, sg, {f}) if any(node is x for x in ast.walk(lp))):
+                purge_loops.append((f, lp))
+    if not purge_loops:
+        r.fail("SymbolGraph.remove_node#relation-purge-loop", site(rm), "", "no loop purges the relation index on node removal")
+        return r
+    for f, lp in purge_loops:
+        it = lp.iter
+        exprs = [it]
+        if isinstance(it, ast.Name) or (isinstance(it, ast.Call) and isinstance(it.func, ast.Attribute) and isinstance(it.func.value, ast.Name)):
+            nm = it.id if isinstance(it, ast.Name) else it.func.value.id
+            exprs += [st.value for st in walk_local(f.node) if isinstance(st, ast.Assign) and src(st.targets[0]) == nm]
+        dirs = set()
+        scans_all = False
+        for e in exprs:
+            for c in [x for x in ast.walk(e) if isinstance(x, ast.Call) and isinstance(x.func, ast.Attribute)]:
+                d = EDGE_DIRECTIONS.get(c.func.attr)
+                if d is not None:
+                    d = set(d)
+                    if c.func.attr.startswith("incident") and any(k.arg == "all_edges" and getattr(k.value, "value", False) is True for k in c.keywords):
+                        d = {"in", "out"}
+                    dirs |= d
+                if c.func.attr in ("values", "items") and "_relation_index" in src(c.func.value):
+                    scans_all = True
+        r.check(scans_all or dirs == {"in", "out"}, f"SymbolGraph.{f.name}#relation-purge-directions", site(f, lp), src(it)[:120],
+                "relations into and out of the removed node are forgotten",
+                f"the purge iterates {sorted(dirs) or 'no'} edges of the removed node only: pairs of relations {'into' if 'in' not in dirs else 'out of'} it stay in the relation index, "
+                f"and when the node index is reused a new relation of a surviving instance looks already known")
+    return r
+
+
 def run(prog: Program, tier: str) -> List[RuleResult]:
-    return [sg_coherence(prog), idkey(prog), rel_gate(prog)]
+    return [sg_coherence(prog), idkey(prog), rel_gate(prog), sg_purge_directions(prog)]
